@@ -71,14 +71,19 @@ func (l *Lines) Reload(blockIdx int) {
 	copy(lines, newBlock)
 }
 
+// reloadRange reloads lines after blocks in range [from, to] changed their
+// positions.
+//
+// Blocks have different numbers of lines, so a moved block shifts first lines
+// of all blocks in the range. As well numbers of blocks written in the lines
+// change. Consequently lines cannot be reloaded block by block in place and the
+// whole listing is rebuilt.
 func (l *Lines) reloadRange(from int, to int) {
-	if from > to {
-		from, to = to, from
-	}
+	fresh := newLines(l.code)
 
-	for i := from; i <= to; i++ {
-		l.Reload(i)
-	}
+	l.lines = fresh.lines
+	l.blockStarts = fresh.blockStarts
+	l.marks = fresh.marks
 }
 
 // ValidIndex checks if i is a valid index of a line.
